@@ -1857,6 +1857,7 @@ fn u3_numbersequence() {
 }
 
 //@ obligation: U3.ColorSequence
+//@ tier: thorough
 //@ props: C01 C03 C04
 //@ fns: serialize_properties[Type::ColorSequence] decode_prop_chunk[Type::ColorSequence/VariantType::ColorSequence]
 //@ kind: bounded
